@@ -330,7 +330,7 @@ func runC15(w *mon.W) {
 			rec := gen.RandGBRecord(r, 1+r.Intn(800), 10, 300)
 			file := gen.WriteGB(rec, gen.RandLayout(r))
 			var g poly.Sequence
-			if p := mon.Try(func() { g = genbank.Parse([]byte(file)) }); p != "" {
+			if p := mon.Try(func() { buf := []byte(file); g = genbank.Parse(buf); scribble(buf) }); p != "" {
 				w.Add("parse_panics_skipped", 1)
 				break
 			}
@@ -365,7 +365,7 @@ func runC15(w *mon.W) {
 				}
 			}
 			var g poly.Sequence
-			if p := mon.Try(func() { g = gff.Parse([]byte(lay)) }); p != "" {
+			if p := mon.Try(func() { buf := []byte(lay); g = gff.Parse(buf); scribble(buf) }); p != "" {
 				w.Add("parse_panics_skipped", 1)
 				break
 			}
